@@ -167,6 +167,8 @@ pub enum ErrTy {
     Big,
     /// 64-byte-aligned tracked error
     Aligned,
+    /// 256-byte-aligned tracked error (stricter than any chunk-size granule)
+    Aligned256,
 }
 
 /// single-value allocation flavour
